@@ -44,13 +44,32 @@ OPS = [k for k in go.ALL_OPS if k != "step"]
 
 
 def generate(R: Draw, tier: str) -> dict:
-    sref = schemas.pick_schema(R, ZOO_NAMES, p_random=0.3)
+    how = R.weighted([("genuine", 3), ("transplanted", 2), ("perturbed", 5), ("random", 3), ("mark-focus", 2)])
+    if how == "mark-focus":
+        sref = R.choice(["big_small", "remark_user", "asym_chain"])
+        if R.bool(0.8):
+            spec = schemas.spec_of(sref)
+            order = R.shuffle(list(spec["marks"]))
+            sref = {"nodes": spec["nodes"], "marks": {m: spec["marks"][m] for m in order}}
+    else:
+        sref = schemas.pick_schema(R, ZOO_NAMES, p_random=0.3)
     lib, rs = schemas.get(sref)
     g = docgen(rs)
     doc = g.doc(R, R.weighted([("tiny", 1), ("small", 5), ("medium", 2)]))
     n = P.size_of(doc["c"], rs.leaf_types)
-    how = R.weighted([("genuine", 3), ("transplanted", 2), ("perturbed", 5), ("random", 3)])
     desc = None
+    if how == "mark-focus":
+        # a node carrying marks that interact with the mark being added (displaced / refusing / bystander)
+        from .c13 import _exclusion_focus
+
+        f = _exclusion_focus(R, g, rs, doc)
+        if f is not None:
+            doc, op = f
+            n = P.size_of(doc["c"], rs.leaf_types)
+            if R.bool(0.6):
+                desc = {"k": "addMark", "from": op["from"], "to": op["to"], "mark": op["mark"]}
+            else:
+                desc = {"k": "addNodeMark", "pos": min(n, op["from"] + 2) if R.bool(0.3) else op["from"], "mark": op["mark"]}
     if how in ("genuine", "perturbed"):
         node = P.build(lib, doc)
         # structure-changing operations are where ReplaceAround steps come from
